@@ -184,7 +184,7 @@ def t4(rep, tier):
     from .trees import show
     c4.FORMS = {}
     try:
-        c4.run(tier)
+        c4.run(tier, library=True)
         forms = c4.FORMS
     finally:
         c4.FORMS = None
